@@ -857,6 +857,80 @@ def check_dead_carry(ctx, rule='R-CARRY'):
     ctx.floor('carries judged by R-CARRY', n, 2)
 
 
+def check_year_end(ctx, rule='R-YEAREND'):
+    """Julian dates (YYJJJ) are not numbers: the day after 02365 is 03001.  A writer that derives an end date by adding the day carry of
+    the end hour to the begin date has to move a date that ran past the last day of its year into the next year, otherwise the last step
+    of a year is stamped with a day that does not exist (02366) and the header dates no longer match the content."""
+    ctx.rule(rule, 'writers: a Julian date that received a day carry is normalised for the end of the year before it is stored')
+    need = ('// 1000', '% 1000', '% 4', '% 100', '% 400', '365')
+    n = 0
+
+    def normaliser(m, value, tgt):
+        """does `value` put tgt through a year-end normalisation?  -> (True, how) / (False, why) / None when tgt is not processed at all"""
+        txt = norm(value)
+        if all(k_ in txt for k_ in ('% 1000', '365')) and tgt in txt:
+            return True, 'inline'
+        for c in walk_expr(value):
+            if isinstance(c, ast.Call) and c.args and norm(c.args[0]) == tgt and isinstance(c.func, (ast.Name, ast.Attribute)):
+                nm = (dotted(c.func) or '').split('.')[-1]
+                callee = m.functions.get(nm)
+                if callee is None and nm in m.imports:
+                    r = ctx.src.resolve_import(m, nm)
+                    if r is not None:
+                        callee = ctx.src.mod(r[0]).functions.get(r[1])
+                if callee is None:
+                    continue
+                body = ' '.join(norm(st) for st in iter_stmts(callee.body))
+                missing = [k_ for k_ in need if k_ not in body]
+                if not missing:
+                    return True, '%s()' % nm
+                if '1000' in body:
+                    return False, '%s() does not %s' % (nm, 'compare the day with the length (365 / 366) of its year' if set(missing) & set(['% 4', '% 100', '% 400', '365']) else 'split the date at 1000')
+        return None
+    for m in ctx.src.all_modules():
+        if not (m.relpath.startswith(CAMX) and m.relpath.endswith('/Write.py')):
+            continue
+        for q, fn in sorted(m.functions.items()):
+            if '<locals>' in q:
+                continue
+            stmts = list(iter_stmts(fn.body))
+            for i, st in enumerate(stmts):
+                if not (isinstance(st, ast.AugAssign) and isinstance(st.op, ast.Add) and 'date' in norm(st.target).lower()):
+                    continue
+                def has_carry(e, depth=0):
+                    for b in walk_expr(e):
+                        if isinstance(b, ast.BinOp) and isinstance(b.op, ast.FloorDiv):
+                            return True
+                        if isinstance(b, ast.Name) and depth < 3:
+                            defs = [s0.value for s0 in stmts[:i] if isinstance(s0, ast.Assign) and any(isinstance(t, ast.Name) and t.id == b.id for t in s0.targets)]
+                            if defs and has_carry(defs[-1], depth + 1):
+                                return True
+                    return False
+                if not has_carry(st.value):
+                    continue
+                n += 1
+                tgt = norm(st.target)
+                verdict = None
+                for s2 in stmts[i + 1:]:
+                    if isinstance(s2, ast.Assign) and any(norm(t) == tgt for t in s2.targets):
+                        verdict = normaliser(m, s2.value, tgt)
+                        if verdict is not None:
+                            verdict = verdict + (s2,)
+                        break
+                    if tgt in norm(s2) and not (isinstance(s2, ast.AugAssign) and norm(s2.target) != tgt and tgt not in norm(s2.value)):
+                        break       # used (stored in a header, written) before any normalisation
+                where = 'src/PseudoNetCDF/%s %s' % (m.relpath, q)
+                if verdict is not None and verdict[0]:
+                    ctx.ok(rule, '%s:%s' % (q, tgt), where, 'carry in `%s` followed by %s (%s)' % (norm(st)[:40], norm(verdict[2])[:50], verdict[1]))
+                elif verdict is not None:
+                    ctx.violation(Finding(rule, m.relpath, q, verdict[2], 'the date that received the day carry is normalised by a function that does not do it: %s; dates carried past 31 December '
+                                          'stay in the old year' % verdict[1]))
+                else:
+                    ctx.violation(Finding(rule, m.relpath, q, st, 'the day carry is added to the Julian date %s and the result is used as it is: the step that ends at midnight of 31 December is '
+                                          'stamped with day 366 (367) of the old year instead of day 1 of the next; the end dates in the headers do not match the content' % tgt))
+    ctx.floor('Julian dates receiving a day carry', n, 2)
+
+
 def check_varorder(ctx):
     src = ctx.src
     wm = src.mod(CAMX + 'cloud_rain/Write.py')
@@ -1217,6 +1291,7 @@ def run(ctx):
     ctx.floor('emission sites examined for byte order', check_byteorder(ctx), 40)
     check_one_step(ctx)
     check_dead_carry(ctx)
+    check_year_end(ctx)
     ctx.floor('single elements of flat maps re-interpreted', check_scalar_view(ctx), 1)
     ctx.floor('text attributes sizing a record', check_sized_text(ctx), 1)
     check_landuse(ctx)
